@@ -9,7 +9,7 @@ PointCloud.{points,normals,colors} does so for all three; (CONSTRUCT/ENC) PointC
 their validating constructors, fields private, no &mut hand-out; (EXPR/ORDER) SurfaceDeviationSet::push stores Some(len(values))
 evaluated before the push under `is_none or strictly-more-extreme` guards, new() derives both indices from the stored vector;
 deviation/direction coherence of point_curve2_deviation, measure_point_deviation, Distance::{new,value,reversed}; tolerance
-constructors and the tolerance-map index coherence. Round 5 (shared with C02): Mesh::surf_closest_to pairs the projection point with the FACE normal of the reported triangle, also on edges and vertices."""
+constructors and the tolerance-map index coherence. Round 5 (shared with C02): Mesh::surf_closest_to pairs the projection point with the FACE normal of the reported triangle, also on edges and vertices. Round 6 (shared with C17): DiscreteDomain::index_of searches with partial_cmp (numeric order, not total_cmp)."""
 NOT_DECIDED = "sign conventions at corners, tolerance-map lookup semantics below the first breakpoint, NaN handling, that closest points are closest (C02)"
 ASSUMPTIONS = ["Vec::push/extend/insert grow, pop/remove/clear/retain shrink (callee table in vpa/evaluators.py)"]
 
